@@ -23,17 +23,43 @@ import Selene.Scope.CoreProof
 namespace Selene.Props.C14
 open Selene.Scope.Spec
 
-/-- **C14 (resolution is spelling-independent).** -/
-theorem C14_resolution_invariant (ρ : String → String) (hρ : Selene.Scope.RenameProof.Renaming ρ) (b : Selene.Lua.Block) :
-    (Selene.Scope.Core.analyse (b.ren ρ)).answers = (Selene.Scope.Core.analyse b).answers := by
+/-- **C14 (resolution and shadowing are spelling-independent).** For every chunk, every name filter and
+every injective renaming ρ of identifiers that fixes `...` and `self` and keeps every name on its side
+of the filter (the property's "does not match an ignore pattern before or after"), the machine's whole
+log — every read with the declaration it denotes, every kept declaration with the declaration it
+shadows — is the same for the renamed chunk. -/
+theorem C14_log_invariant [Selene.Scope.Core.NameFilter] (ρ : String → String)
+    (hρ : Selene.Scope.RenameProof.Renaming ρ) (b : Selene.Lua.Block) :
+    (Selene.Scope.Core.analyse (b.ren ρ)).log = (Selene.Scope.Core.analyse b).log := by
   rw [Selene.Scope.CoreProof.analyse_eq, Selene.Scope.CoreProof.analyse_eq, Selene.Scope.RenameProof.chunk_ren hρ]
 
-/-- hypotheses are satisfiable by a renaming that is not the identity: swap `x` and `fresh` -/
-example : Selene.Scope.RenameProof.Renaming (fun n => if n = "x" then "fresh" else if n = "fresh" then "x" else n) := by
-  refine ⟨?_, by decide, by decide⟩
-  intro a b h
-  by_cases ha : a = "x" <;> by_cases hb : b = "x" <;> by_cases ha' : a = "fresh" <;> by_cases hb' : b = "fresh" <;>
-    simp_all
+theorem C14_resolution_invariant [Selene.Scope.Core.NameFilter] (ρ : String → String)
+    (hρ : Selene.Scope.RenameProof.Renaming ρ) (b : Selene.Lua.Block) :
+    (Selene.Scope.Core.analyse (b.ren ρ)).answers = (Selene.Scope.Core.analyse b).answers := by
+  rw [← Selene.Scope.CoreProof.log_answers, ← Selene.Scope.CoreProof.log_answers, C14_log_invariant ρ hρ b]
+
+theorem C14_shadowing_invariant [Selene.Scope.Core.NameFilter] (ρ : String → String)
+    (hρ : Selene.Scope.RenameProof.Renaming ρ) (b : Selene.Lua.Block) :
+    (Selene.Scope.Core.analyse (b.ren ρ)).shadows = (Selene.Scope.Core.analyse b).shadows := by
+  rw [← Selene.Scope.CoreProof.log_shadows, ← Selene.Scope.CoreProof.log_shadows, C14_log_invariant ρ hρ b]
+
+/-- hypotheses are satisfiable by a renaming that is not the identity: swap `x` and `fresh` (under a
+    filter that drops `_` and `...`) -/
+def underscoreFilter : Selene.Scope.Core.NameFilter := ⟨fun n => n != "_" && n != "..."⟩
+example : @Selene.Scope.RenameProof.Renaming underscoreFilter
+    (fun n => if n = "x" then "fresh" else if n = "fresh" then "x" else n) := by
+  refine @Selene.Scope.RenameProof.Renaming.mk underscoreFilter _ ?_ (by decide) (by decide) ?_
+  · intro a b h
+    by_cases ha : a = "x" <;> by_cases hb : b = "x" <;> by_cases ha' : a = "fresh" <;> by_cases hb' : b = "fresh" <;>
+      simp_all
+  · intro n
+    show ((if n = "x" then "fresh" else if n = "fresh" then "x" else n) != "_" &&
+        (if n = "x" then "fresh" else if n = "fresh" then "x" else n) != "...") = (n != "_" && n != "...")
+    by_cases h1 : n = "x"
+    · subst h1; decide
+    · by_cases h2 : n = "fresh"
+      · subst h2; decide
+      · simp [h1, h2]
 
 def renameEnv (ρ : String → String) (env : Env) : Env := env.map fun e => (ρ e.1, e.2)
 
